@@ -1,6 +1,7 @@
 package props
 
 import (
+	"bytes"
 	"fmt"
 	"math"
 	"math/big"
@@ -19,6 +20,36 @@ import (
 type c03Case struct {
 	Lit string `json:"lit"`
 	Ctx int    `json:"ctx"`
+	// Pre: number of small members placed before the literal (array contexts: "0," elements; object contexts:
+	// "pN":0 members), so that the literal is written when the tape is about to grow, at any position
+	Pre int `json:"pre,omitempty"`
+}
+
+// c03Input builds the document of a case.
+func c03Input(c c03Case) []byte {
+	ctx := c03Contexts[c.Ctx%len(c03Contexts)]
+	if c.Pre <= 0 {
+		return []byte(ctx.pre + c.Lit + ctx.post)
+	}
+	var b bytes.Buffer
+	if strings.HasPrefix(ctx.pre, "{") {
+		b.WriteByte('{')
+		for i := 0; i < c.Pre; i++ {
+			fmt.Fprintf(&b, `"p%d":%d,`, i, i%10)
+		}
+		b.WriteString(ctx.pre[1:])
+	} else {
+		// "[" , "[1," or "[["
+		b.WriteByte('[')
+		for i := 0; i < c.Pre; i++ {
+			b.WriteByte(byte('0' + i%10))
+			b.WriteByte(',')
+		}
+		b.WriteString(ctx.pre[1:])
+	}
+	b.WriteString(c.Lit)
+	b.WriteString(ctx.post)
+	return b.Bytes()
 }
 
 var c03Contexts = []struct{ pre, post string }{
@@ -30,8 +61,7 @@ func c03Check(c c03Case) error {
 	if !rj.ValidNumberLiteral(c.Lit) {
 		return bugf("case literal %q is not in the number grammar", c.Lit)
 	}
-	ctx := c03Contexts[c.Ctx%len(c03Contexts)]
-	in := []byte(ctx.pre + c.Lit + ctx.post)
+	in := c03Input(c)
 	finite := rj.FiniteLiteral(c.Lit)
 	var wt byte
 	var wbits uint64
@@ -66,6 +96,13 @@ func c03Check(c c03Case) error {
 		var typ simdjson.Type
 		found := false
 		depth := 0
+		skip := c.Pre
+		if c.Pre < 0 {
+			skip = 0
+		}
+		if c.Ctx%len(c03Contexts) == 10 {
+			skip++ // context "[1,LIT]": the leading 1
+		}
 		for {
 			tag := it.AdvanceInto()
 			if tag == simdjson.TagEnd {
@@ -77,9 +114,8 @@ func c03Check(c c03Case) error {
 			}
 			t := tag.Type()
 			if t == simdjson.TypeInt || t == simdjson.TypeUint || t == simdjson.TypeFloat {
-				if c.Ctx%len(c03Contexts) == 10 && !found {
-					// context "[1,LIT]": skip the leading 1
-					found = true
+				if skip > 0 {
+					skip--
 					continue
 				}
 				typ = t
@@ -124,6 +160,19 @@ func c03Check(c c03Case) error {
 			return fmt.Errorf("[%s] literal %s exposed as type %c bits %#x flag %v; documented exposure is type %c bits %#x flag %v (%s vs %s)",
 				cfg, c.Lit, gt, gbits, gflag, wt, wbits, wflag, showNum(gt, gbits), showNum(wt, wbits))
 		}
+		if cfg.sib || cfg.prior {
+			// the same exposure through the other routes to a value: typed traversal with NextElementBytes / Array
+			// iteration (W1), Object.Parse + Elements (W6) and the raw tag walk (W2)
+			model, err := modelOf(in)
+			if err != nil {
+				return err
+			}
+			roots := []*rj.Node{model}
+			mc := func(o canonOpts) []byte { return modelCanonAll(roots, o) }
+			if err := compareWalkers(pj, []walker{wW1, wW6, wW2}, mc); err != nil {
+				return fmt.Errorf("[%s] literal %s in %q: %v", cfg, c.Lit, clip(in), err)
+			}
+		}
 	}
 	return nil
 }
@@ -155,12 +204,14 @@ func c03Trivial(lit string) bool {
 	return true
 }
 
-func c03Eval(tb fataler, lit string, ctx int, class string) {
+func c03Eval(tb fataler, lit string, ctx int, class string) { c03EvalPre(tb, lit, ctx, 0, class) }
+
+func c03EvalPre(tb fataler, lit string, ctx, pre int, class string) {
 	if !rj.ValidNumberLiteral(lit) {
 		col("C03").Skip("generated string not in the number grammar")
 		return
 	}
-	c03Run(tb, c03Case{Lit: lit, Ctx: ctx})
+	c03Run(tb, c03Case{Lit: lit, Ctx: ctx, Pre: pre})
 	cl := col("C03")
 	cls := []string{"class:" + class, fmt.Sprintf("ctx:%d", ctx%len(c03Contexts))}
 	if rj.FiniteLiteral(lit) {
@@ -172,7 +223,10 @@ func c03Eval(tb fataler, lit string, ctx int, class string) {
 	} else {
 		cls = append(cls, "type:infinite(reject)")
 	}
-	cl.Eval(!c03Trivial(lit), evidHash([]byte(lit), []byte{byte(ctx % len(c03Contexts))}), cls...)
+	if pre > 0 {
+		cls = append(cls, fmt.Sprintf("members-before:%d", bucket(pre)))
+	}
+	cl.Eval(!c03Trivial(lit), evidHash([]byte(lit), []byte{byte(ctx % len(c03Contexts)), byte(pre), byte(pre >> 8)}), cls...)
 	cl.Sample(func() interface{} {
 		return map[string]interface{}{"literal": clipS(lit), "ctx": c03Contexts[ctx%len(c03Contexts)].pre + "_" + c03Contexts[ctx%len(c03Contexts)].post, "class": class}
 	})
@@ -403,7 +457,45 @@ func TestC03_Random(t *testing.T) {
 func TestC03_Rapid(t *testing.T) {
 	runRapid(t, "C03_Rapid", nCases(80_000, 800_000), func(t *rapid.T) {
 		lit := genNumberLit(t)
-		c03Eval(t, lit, rapid.IntRange(0, len(c03Contexts)-1).Draw(t, "ctx"), "rapid")
+		pre := 0
+		if rapid.IntRange(0, 2).Draw(t, "withpre") == 0 {
+			// every position up to 300, so that the literal meets every growth step of the tape
+			pre = rapid.IntRange(1, 300).Draw(t, "pre")
+			if rapid.IntRange(0, 7).Draw(t, "bigpre") == 0 {
+				pre = rapid.IntRange(300, 5000).Draw(t, "prebig")
+			}
+		}
+		c03EvalPre(t, lit, rapid.IntRange(0, len(c03Contexts)-1).Draw(t, "ctx"), pre, "rapid")
 	})
 	col("C03").Completed("TestC03_Rapid")
+}
+
+// TestC03_Growth: literals of every exposure class placed behind 1..300 (and some thousands of) small members, in an
+// array and in an object, so that each is written at every growth step of the tape and of the other internal buffers.
+func TestC03_Growth(t *testing.T) {
+	lits := []string{"18446744073709551616", "-9223372036854775809", "123456789012345678901234567890", "18446744073709551615", "-9223372036854775808", "1.5", "1e300", "-0.0", "9223372036854775807"}
+	idx := 0
+	pres := []int{}
+	for p := 1; p <= 300; p++ {
+		pres = append(pres, p)
+	}
+	for _, p := range []int{500, 511, 512, 513, 1000, 1023, 1024, 1025, 2047, 2048, 2049, 4095, 4096, 4097, 8191, 8192, 8193, 16383, 16384, 16385} {
+		pres = append(pres, p)
+	}
+	for _, lit := range lits {
+		for _, pre := range pres {
+			for _, ctx := range []int{0, 6, 1, 7} {
+				idx++
+				if idx%envNShards != envShard {
+					continue
+				}
+				if pre > 300 && ctx != 0 && ctx != 6 {
+					continue
+				}
+				c03EvalPre(t, lit, ctx, pre, "growth-sweep")
+			}
+		}
+	}
+	col("C03").Exhaustive("9 literals of every exposure class behind 1..300 members (array and object contexts)")
+	col("C03").Completed("TestC03_Growth")
 }
